@@ -566,6 +566,24 @@ fn run_case(case: &Case, ctx: &mut Ctx) -> CaseResult {
     if let Some(raw) = &case.raw {
         inputs.push(raw.0.clone());
     }
+    if case.target == Target::Transaction && case.commit_encoding != 0 {
+        // the type URL of the `Any` that carries the body is not covered by the signature and is
+        // not kept by the typed value: variants of it around the expected one
+        let mut raw = transaction(case).into_raw();
+        if let Some(body) = raw.body.as_mut() {
+            let url = body.type_url.clone();
+            body.type_url = match case.commit_encoding % 6 {
+                1 => format!("type.googleapis.com{url}"),
+                2 => format!("x{url}"),
+                3 => url.trim_start_matches('/').to_string(),
+                4 => format!("/{url}"),
+                5 => format!("{url}/"),
+                _ => url.replacen("v1", "v1alpha1", 1),
+            };
+            ctx.label("body-type-url-variant");
+            inputs.push(raw.encode_to_vec());
+        }
+    }
     for input in inputs {
         let proto_ok = match case.target {
             Target::Transaction => rawtx::Transaction::decode(input.as_slice()).is_ok(),
@@ -596,6 +614,22 @@ fn run_case(case: &Case, ctx: &mut Ctx) -> CaseResult {
             Ok(None) => ctx.label("rejected"),
             Ok(Some(reencoded)) => {
                 ctx.label("accepted-after-mutation");
+                if case.target == Target::Transaction {
+                    // "re-encodes to an equivalent message": every field of the message the
+                    // typed value re-encodes to has the value received (unknown fields and
+                    // non-canonical encodings aside - both sides go through the same protobuf
+                    // decoder); otherwise one signed transaction has many accepted byte forms the
+                    // node itself would never emit, and its hash is not the hash of what arrived
+                    let received = rawtx::Transaction::decode(input.as_slice()).ok();
+                    let emitted = rawtx::Transaction::decode(reencoded.as_slice()).ok();
+                    vensure!(
+                        received.is_some() && received == emitted,
+                        "accepted-value-reencodes-to-different-message",
+                        "Transaction: accepted bytes re-encode to a message that differs in a field value: received {:?}, re-encoded {:?}",
+                        received.as_ref().map(|t| t.body.as_ref().map(|b| b.type_url.clone())),
+                        emitted.as_ref().map(|t| t.body.as_ref().map(|b| b.type_url.clone()))
+                    );
+                }
                 match catch(|| decode(&reencoded)) {
                     Ok(Some(again)) => vensure!(
                         again == reencoded,
@@ -638,6 +672,12 @@ pub fn fuzz_entry(data: &[u8]) {
     };
     let (_, decode) = DECODERS[usize::from(*selector) % DECODERS.len()];
     if let Some(reencoded) = decode(wire) {
+        if usize::from(*selector) % DECODERS.len() == 0 {
+            assert!(
+                rawtx::Transaction::decode(wire).ok() == rawtx::Transaction::decode(reencoded.as_slice()).ok(),
+                "accepted transaction bytes re-encode to a message that differs in a field value"
+            );
+        }
         match decode(&reencoded) {
             Some(again) => assert!(
                 again == reencoded,
